@@ -106,15 +106,17 @@ def errorCodeAddTo (m : Msg) (code : Nat) (reason : Bytes) : Msg × Option SetEr
 /-- ASCII string literal as bytes (kernel-reducible form) -/
 def str (s : String) : Bytes := s.toList.map (fun c => UInt8.ofNat c.toNat)
 
-/-- errorcode.go `errorReasons` -/
-def errorReasons : List (Nat × Bytes) :=
-  [ (300, str "Try Alternate"), (400, str "Bad Request"), (401, str "Unauthorized"),
-    (420, str "Unknown Attribute"), (438, str "Stale Nonce"), (500, str "Server Error"),
-    (487, str "Role Conflict"), (403, str "Forbidden"), (437, str "Allocation Mismatch"),
-    (441, str "Wrong Credentials"), (442, str "Unsupported Transport Protocol"),
-    (486, str "Allocation Quota Reached"), (508, str "Insufficient Capacity"),
-    (446, str "Connection Already Exists"), (447, str "Connection Timeout or Failure"),
-    (440, str "Address Family not Supported"), (443, str "Peer Address Family Mismatch") ]
+/-- errorcode.go `errorReasons` (code, default reason phrase) -/
+def errorReasonsS : List (Nat × String) :=
+  [ (300, "Try Alternate"), (400, "Bad Request"), (401, "Unauthorized"),
+    (420, "Unknown Attribute"), (438, "Stale Nonce"), (500, "Server Error"),
+    (487, "Role Conflict"), (403, "Forbidden"), (437, "Allocation Mismatch"),
+    (441, "Wrong Credentials"), (442, "Unsupported Transport Protocol"),
+    (486, "Allocation Quota Reached"), (508, "Insufficient Capacity"),
+    (446, "Connection Already Exists"), (447, "Connection Timeout or Failure"),
+    (440, "Address Family not Supported"), (443, "Peer Address Family Mismatch") ]
+
+def errorReasons : List (Nat × Bytes) := errorReasonsS.map (fun p => (p.1, str p.2))
 
 /-- errorcode.go `ErrorCode.AddTo` -/
 def errorCodeDefaultAddTo (m : Msg) (code : Nat) : Msg × Option SetErr :=
